@@ -1,6 +1,7 @@
 import BM.Props.C11
 import BM.Props.C12
 import BM.Proofs.Escape
+import BM.Props.C04
 /-
   C20: re-sanitising sanitised output is a no-op.  Proved, clause by clause of the statement:
   * "added rel tokens are not repeated": the rel sub-passes are idempotent on values —
@@ -54,6 +55,13 @@ theorem setVal_idem (k : Bytes) (v : Bytes) (a : Attr) :
 /-- an escaped text has no tag opener: read again, it is text and nothing else -/
 theorem escaped_text_stays_text (d : Bytes) : ∀ c ∈ escape d, c ≠ 60 :=
   fun c hc => (escape_no_special d c hc).1
+
+/-- **C20 for StrictPolicy, byte level** (from `Props/C04.lean`: the output is one escaped
+    string, which the tokenizer reads back as that string — `tokenize_escape`,
+    `unescape_escape` — and which is then escaped to the same bytes) -/
+theorem C20_strict (input : Bytes) :
+    strictPolicy.sanitizeCore (strictPolicy.sanitizeCore input) = strictPolicy.sanitizeCore input :=
+  C20_strict_idempotent input
 
 example : addRelToken true b!"nofollow" (addRelToken true b!"nofollow" b!"author") = b!"author nofollow" := by decide
 
